@@ -328,7 +328,12 @@ class M2Executor(Executor):
             if len(outs) != 1 or outs[0].kind != 'normal':
                 raise Unsupported('comprehension element forks')
             elt = to_val(outs[0].val)
-        finally:
+        except Unsupported:
+            del self.obligations[n_ob:]
+            raise
+        if not self.opts.get('keep_comprehension_obligations'):
+            # (obligations posed while evaluating the condition / element for the arbitrary witness element are site
+            # obligations of the comprehension; tasks that want them opt in)
             del self.obligations[n_ob:]
         r = fresh_opaque('comp')
         self.comp_facts[r.t.get_id()] = {'witness': w.t, 'cond': z3.And(conds) if conds else z3.BoolVal(True),
